@@ -182,6 +182,139 @@ def r02_1(ctx: Ctx):
     return obs
 
 
+def _row_mask_kind(m, defs, a_txt, b_txt, depth=0):
+    """Classify a boolean row mask over two (n, d) arrays a, b:  'changed' = rows differing in at least one coordinate
+    (any(a != b, axis=1), ~all(a == b, axis=1), method forms), 'unchanged' = its complement, 'wrong' = a recognisable mask
+    that is neither (all(a != b), any(a == b), another axis, other operands), None = not understood."""
+    m = _resolve1(m, defs)
+    if depth > 4:
+        return None
+    if isinstance(m, ast.UnaryOp) and isinstance(m.op, (ast.Invert, ast.Not)):
+        k = _row_mask_kind(m.operand, defs, a_txt, b_txt, depth + 1)
+        return {"changed": "unchanged", "unchanged": "changed"}.get(k, k)
+    if isinstance(m, ast.Call) and norm(m.func) in ("np.logical_not", "numpy.logical_not", "np.invert") and len(m.args) == 1:
+        k = _row_mask_kind(m.args[0], defs, a_txt, b_txt, depth + 1)
+        return {"changed": "unchanged", "unchanged": "changed"}.get(k, k)
+    red = cmp = axis = None
+    if isinstance(m, ast.Call) and norm(m.func) in ("np.any", "numpy.any", "np.all", "numpy.all") and m.args:
+        red, cmp = norm(m.func).split(".")[-1], _resolve1(m.args[0], defs)
+        axis = next((k.value for k in m.keywords if k.arg == "axis"), m.args[1] if len(m.args) > 1 else None)
+    elif isinstance(m, ast.Call) and isinstance(m.func, ast.Attribute) and m.func.attr in ("any", "all"):
+        red, cmp = m.func.attr, _resolve1(m.func.value, defs)
+        axis = next((k.value for k in m.keywords if k.arg == "axis"), m.args[0] if m.args else None)
+    if red is None:
+        return None
+    ne = None
+    if isinstance(cmp, ast.Compare) and len(cmp.ops) == 1 and isinstance(cmp.ops[0], (ast.NotEq, ast.Eq)):
+        ne = isinstance(cmp.ops[0], ast.NotEq)
+        sides = {canon(cmp.left, defs), canon(cmp.comparators[0], defs)}
+    elif isinstance(cmp, ast.Call) and norm(cmp.func) in ("np.not_equal", "np.equal") and len(cmp.args) == 2:
+        ne = norm(cmp.func) == "np.not_equal"
+        sides = {canon(cmp.args[0], defs), canon(cmp.args[1], defs)}
+    if ne is None:
+        return None
+    if sides != {a_txt, b_txt}:
+        return "wrong" if all(isinstance(ast.parse(x, mode="eval").body, (ast.Name, ast.Attribute)) for x in sides) else None
+    ax = axis.value if isinstance(axis, ast.Constant) else (-axis.operand.value if isinstance(axis, ast.UnaryOp) and isinstance(axis.op, ast.USub) and isinstance(axis.operand, ast.Constant) else "?")
+    if ax == "?":
+        return None
+    if ax not in (1, -1):
+        return "wrong"
+    if red == "any" and ne:
+        return "changed"
+    if red == "all" and not ne:
+        return "unchanged"
+    return "wrong"
+
+
+def _update_genome_status(stores, newp, sn, defs, ug):
+    import re as _re
+
+    mentions_fit = any(isinstance(x, ast.Attribute) and x.attr == "fitnesses" for x in ast.walk(ug.node))
+    if "genomes" not in stores:
+        return INCONCLUSIVE, "cannot find the masked store into genomes"
+    if "fitnesses" not in stores:
+        return (INCONCLUSIVE, "cannot find the masked store into fitnesses") if mentions_fit else (VIOLATION, "genomes are overwritten but the fitness of the changed rows is never invalidated")
+    gsl, fsl = stores["genomes"].targets[0].slice, stores["fitnesses"].targets[0].slice
+    gk = _row_mask_kind(gsl, defs, newp, f"{sn}.genomes")
+    fk = _row_mask_kind(fsl, defs, newp, f"{sn}.genomes")
+    gm, fm = canon(gsl, defs), canon(fsl, defs)
+    if gk is None or fk is None:
+        if gm == fm:
+            return INCONCLUSIVE, f"cannot interpret the change mask `{norm(_resolve1(gsl, defs))[:70]}`"
+        return INCONCLUSIVE, f"cannot relate the mask of the genome store `{gm[:50]}` to the mask of the fitness store `{fm[:50]}`"
+    if gk != fk:
+        return VIOLATION, f"genomes are overwritten under mask `{gm[:60]}` but fitness is reset under `{fm[:60]}`"
+    if gk != "changed":
+        return VIOLATION, f"the change mask `{norm(_resolve1(gsl, defs))[:70]}` is not `rows differing in any coordinate` (np.any(new != old, axis=1)): rows that changed in only some coordinates keep their old fitness"
+    gv = stores["genomes"].value
+    gvt = canon(gv, defs)
+    if gvt not in (f"{newp}[{gm}]", f"{newp}[{canon(gsl)}]"):
+        return (VIOLATION if newp not in {x.id for x in ast.walk(gv) if isinstance(x, ast.Name)} and newp not in gvt else INCONCLUSIVE), f"changed rows receive `{norm(gv)[:60]}` instead of the new genome's rows under the same mask"
+    fv = _resolve1(stores["fitnesses"].value, defs)
+    fvt = norm(fv)
+    if fvt in ("np.nan", "numpy.nan", "math.nan", "np.NaN", "float('nan')", 'float("nan")', "np.float64('nan')"):
+        return OK, ""
+    if isinstance(fv, ast.Constant) or (isinstance(fv, ast.Subscript) and "fitnesses" in fvt):
+        return VIOLATION, f"changed rows get fitness `{fvt[:50]}` instead of NaN"
+    return INCONCLUSIVE, f"cannot tell whether `{fvt[:50]}` stored as the changed rows' fitness is NaN"
+
+
+def _evaluate_status(ev):
+    """Population.evaluate: exactly the rows whose fitness is NaN get problem.evaluate(their own genome)."""
+    sn = ev.self_name()
+    defs = local_defs(ev)
+    st = [n for n in body_walk(ev.node) if isinstance(n, ast.Assign) and len(n.targets) == 1 and isinstance(n.targets[0], ast.Subscript) and is_self_attr(n.targets[0].value, "fitnesses", sn)]
+    if len(st) != 1:
+        return INCONCLUSIVE, f"{len(st)} subscript stores into fitnesses"
+    mask = st[0].targets[0].slice
+    m = _resolve1(mask, defs)
+
+    def nan_rows(e, depth=0):
+        """'nan' = selects exactly the NaN rows (boolean mask or index array), 'not-nan' = the complement, None = unknown"""
+        e = _resolve1(e, defs)
+        if depth > 4:
+            return None
+        if isinstance(e, ast.Call) and norm(e.func) in ("np.isnan", "numpy.isnan", "math.isnan") and e.args and canon(e.args[0], defs) == f"{sn}.fitnesses":
+            return "nan"
+        if isinstance(e, ast.Call) and norm(e.func) in ("np.flatnonzero", "np.nonzero", "np.argwhere", "np.where") and len(e.args) == 1 and not e.keywords:
+            return nan_rows(e.args[0], depth + 1)
+        if isinstance(e, ast.Subscript) and isinstance(e.slice, ast.Constant) and e.slice.value == 0 and isinstance(e.value, ast.Call) and norm(e.value.func) in ("np.nonzero", "np.where") and len(e.value.args) == 1:
+            return nan_rows(e.value.args[0], depth + 1)
+        if isinstance(e, ast.UnaryOp) and isinstance(e.op, (ast.Invert, ast.Not)):
+            k = nan_rows(e.operand, depth + 1)
+            return {"nan": "not-nan", "not-nan": "nan"}.get(k)
+        if isinstance(e, ast.Call) and norm(e.func) in ("np.isfinite", "np.logical_not") and e.args:
+            if norm(e.func) == "np.isfinite":
+                return None
+            k = nan_rows(e.args[0], depth + 1)
+            return {"nan": "not-nan", "not-nan": "nan"}.get(k)
+        return None
+
+    k = nan_rows(mask)
+    if k == "not-nan":
+        return VIOLATION, f"rows to evaluate are chosen by `{norm(m)[:60]}`: the rows that already have a fitness, not the NaN rows"
+    if k is None:
+        return INCONCLUSIVE, f"cannot tell whether `{norm(m)[:60]}` selects exactly the rows whose fitness is NaN"
+    vals = _resolve1(st[0].value, defs)
+    if not (isinstance(vals, ast.ListComp) and len(vals.generators) == 1 and not vals.generators[0].ifs):
+        return INCONCLUSIVE, f"stored values `{norm(vals)[:80]}` are not a plain comprehension over the selected rows"
+    g = vals.generators[0]
+    it = canon(g.iter, defs)
+    if it == f"{sn}.genomes":
+        return VIOLATION, "the values are computed for ALL genomes but stored into the NaN rows only: rows receive another row's fitness"
+    if it not in (f"{sn}.genomes[{canon(mask, defs)}]", f"{sn}.genomes[{canon(mask)}]"):
+        gi = _resolve1(g.iter, defs)
+        if isinstance(gi, ast.Subscript) and canon(gi.value, defs) == f"{sn}.genomes" and isinstance(gi.slice, ast.Slice):
+            return VIOLATION, f"the values are computed for the contiguous rows `{norm(gi)[:60]}` but stored into the NaN rows: rows receive another row's fitness"
+        return INCONCLUSIVE, f"cannot relate the evaluated rows `{it[:60]}` to the rows stored under `{canon(mask)[:40]}`"
+    if not (isinstance(vals.elt, ast.Call) and norm(vals.elt.func) == f"{sn}.problem.evaluate" and vals.elt.args):
+        return INCONCLUSIVE, f"stored values `{norm(vals.elt)[:60]}` are not problem.evaluate(row)"
+    if norm(vals.elt.args[0]) != norm(g.target):
+        return (VIOLATION if isinstance(vals.elt.args[0], (ast.Subscript, ast.Attribute)) else INCONCLUSIVE), f"problem.evaluate is given `{norm(vals.elt.args[0])[:50]}`, not the row being evaluated"
+    return OK, ""
+
+
 def r02_2(ctx: Ctx):
     """R02.2 in-place writes to population arrays: only update_genome / evaluate, with agreeing masks."""
     obs = []
@@ -263,41 +396,11 @@ def r02_2(ctx: Ctx):
     for n in body_walk(ug.node):
         if isinstance(n, ast.Assign) and len(n.targets) == 1 and isinstance(n.targets[0], ast.Subscript) and isinstance(n.targets[0].value, ast.Attribute) and is_self_attr(n.targets[0].value, None, sn):
             stores[n.targets[0].value.attr] = n
-    ok = "genomes" in stores and "fitnesses" in stores
-    why = "update_genome does not store both genomes and fitnesses"
-    if ok:
-        gm, fm = canon(stores["genomes"].targets[0].slice), canon(stores["fitnesses"].targets[0].slice)
-        if gm != fm:
-            ok, why = False, f"genomes are overwritten under mask `{gm}` but fitness is reset under `{fm}`"
-        elif canon(stores["genomes"].value) != f"{newp}[{gm}]":
-            ok, why = False, f"changed rows receive `{norm(stores['genomes'].value)}` instead of the new genome's rows under the same mask"
-        elif norm(stores["fitnesses"].value) not in ("np.nan", "numpy.nan"):
-            ok, why = False, f"changed rows get fitness `{norm(stores['fitnesses'].value)}` instead of NaN"
-        else:
-            m = _resolve1(stores["genomes"].targets[0].slice, defs)
-            want = False
-            if isinstance(m, ast.Call) and norm(m.func) in ("np.any", "numpy.any") and m.args and isinstance(m.args[0], ast.Compare) and isinstance(m.args[0].ops[0], ast.NotEq):
-                sides = {canon(m.args[0].left), canon(m.args[0].comparators[0])}
-                axis = next((k.value for k in m.keywords if k.arg == "axis"), None)
-                want = sides == {newp, f"{sn}.genomes"} and isinstance(axis, ast.Constant) and axis.value == 1
-            if not want:
-                ok, why = False, f"the change mask `{norm(m)[:70]}` is not np.any(new != old, axis=1): rows that changed in only some coordinates keep their old fitness"
-    obs.append(ctx.ob("R02.2", ug, ug.node, status=OK if ok else VIOLATION, detail="rows differing in any coordinate are overwritten and invalidated with one mask" if ok else f"Population.update_genome: {why}", construct="update_genome"))
+    st_u, why = _update_genome_status(stores, newp, sn, defs, ug)
+    obs.append(ctx.ob("R02.2", ug, ug.node, status=st_u, detail="rows differing in any coordinate are overwritten and invalidated with one mask" if st_u == OK else f"Population.update_genome: {why}", construct="update_genome"))
     # evaluate
-    sn = ev.self_name()
-    defs = local_defs(ev)
-    st = [n for n in body_walk(ev.node) if isinstance(n, ast.Assign) and len(n.targets) == 1 and isinstance(n.targets[0], ast.Subscript) and is_self_attr(n.targets[0].value, "fitnesses", sn)]
-    ok = len(st) == 1
-    why = "evaluate does not store fitnesses exactly once"
-    if ok:
-        mask = st[0].targets[0].slice
-        m = _resolve1(mask, defs)
-        vals = _resolve1(st[0].value, defs)
-        if not (isinstance(m, ast.Call) and norm(m.func) in ("np.isnan", "numpy.isnan") and canon(m.args[0]) == f"{sn}.fitnesses"):
-            ok, why = False, f"rows to evaluate are chosen by `{norm(m)[:60]}`, not by isnan(fitnesses)"
-        elif not (isinstance(vals, ast.ListComp) and len(vals.generators) == 1 and canon(vals.generators[0].iter) == f"{sn}.genomes[{canon(mask)}]" and isinstance(vals.elt, ast.Call) and norm(vals.elt.func) == f"{sn}.problem.evaluate" and vals.elt.args and norm(vals.elt.args[0]) == norm(vals.generators[0].target) and not vals.generators[0].ifs):
-            ok, why = False, f"stored values `{norm(vals)[:80]}` are not problem.evaluate(row) for exactly the rows under the same mask"
-    obs.append(ctx.ob("R02.2", ev, ev.node, status=OK if ok else VIOLATION, detail="exactly the NaN rows are evaluated from their own genomes" if ok else f"Population.evaluate: {why}", construct="evaluate"))
+    st_e, why = _evaluate_status(ev)
+    obs.append(ctx.ob("R02.2", ev, ev.node, status=st_e, detail="exactly the NaN rows are evaluated from their own genomes" if st_e == OK else f"Population.evaluate: {why}", construct="evaluate"))
     return obs
 
 
